@@ -642,12 +642,14 @@ fn probe_db(db: &DbDesc) -> DbDesc {
 }
 
 impl World {
-    /// The well-formed query that must keep being answered: ANSWER_LIMIT per
-    /// attempt, one retry; a second miss is the statement's "wedged" clause.
+    /// The well-formed query that must keep being answered. An attempt ends
+    /// after ANSWER_LIMIT or the client's own 30 s read timeout; only four
+    /// misses in a row (>= 2 minutes without an answer) are the statement's
+    /// "wedged" clause.
     fn probe(&self, db: &DbDesc, recs: &[Rec<'_>], phase: &'static str, tr: Transport, ep: Endpoint, findings: &mut Vec<Finding>) -> bool {
         let endpoint = World::endpoint(tr, PROBE_PRODUCT, ep);
         let mut last = String::new();
-        for _ in 0..2 {
+        for _ in 0..4 {
             match self.call_once(tr, &endpoint, ANSWER_LIMIT) {
                 Raw::Out(Outcome::Trouble(m)) => last = m,
                 Raw::Timeout(m) => last = m,
@@ -665,7 +667,7 @@ impl World {
         }
         let key = format!("C15:robustness:well-formed-query-not-answered:{phase}:{}", tr.name());
         if !findings.iter().any(|g| g.key == key) {
-            findings.push(Finding { key, msg: format!("{endpoint:?} got no answer twice (limit {ANSWER_LIMIT:?} each): {last}") });
+            findings.push(Finding { key, msg: format!("{endpoint:?} got no answer in 4 attempts (limit {ANSWER_LIMIT:?} each, client read timeout 30 s): {last}") });
         }
         false
     }
